@@ -87,7 +87,7 @@ theorem sim_runFn (K : Codec) (st : StateId) (c : Nat) (f : StateFn) (hnr : noRe
     (hI : absI st c (f.row (.rune c)).1 v s.exit s.ignoreST = some (v', e', g')) :
     Dat v' (runFn f (.rune c) s).1 (Spec.VT500.acts m c ((f.row (.rune c)).1.flatMap (abs1 st))).1 ∧
     (runFn f (.rune c) s).1.exit = e' ∧
-    (runFn f (.rune c) s).1.ignoreST = (if f.pre.contains .deferClearIgnoreST then false else g') ∧
+    (runFn f (.rune c) s).1.ignoreST = (if (f.row (.rune c)).1.contains .deferClearIgnoreST then false else g') ∧
     noErr (runFn f (.rune c) s).2.1 = (Spec.VT500.acts m c ((f.row (.rune c)).1.flatMap (abs1 st))).2.map specSeq ∧
     (runFn f (.rune c) s).2.2 = (f.row (.rune c)).2 ∧ (runFn f (.rune c) s).1.state = s.state := by
   have hno := noRetL_spec _ hnr
@@ -98,7 +98,7 @@ theorem sim_runFn (K : Codec) (st : StateId) (c : Nat) (f : StateFn) (hnr : noRe
   generalize runActs (f.row (.rune c)).1 (.rune c) s [] (f.row (.rune c)).2 = res at h1 h2 h3 h4 h5 h6
   obtain ⟨s', o, n⟩ := res
   simp only at h1 h2 h3 h4 h5 h6 ⊢
-  by_cases hd : f.pre.contains .deferClearIgnoreST = true
+  by_cases hd : (f.row (.rune c)).1.contains .deferClearIgnoreST = true
   · simp only [hd, if_true]
     exact ⟨Dat_congr h1 rfl rfl rfl rfl rfl, h2, trivial, by simpa using h4, h5, h6⟩
   · simp only [hd, Bool.false_eq_true, if_false]
